@@ -270,6 +270,14 @@ pub mod verif {
             self.0.iter().map(|b| b.num_entries()).collect()
         }
 
+        /// `bucket(key)`: the inclusive distance range of the bucket the key belongs to, `None` for the local key.
+        pub fn bucket_range(
+            &mut self,
+            key: &KeyBytes,
+        ) -> Option<(crate::KBucketDistance, crate::KBucketDistance)> {
+            self.0.bucket(key).map(|b| b.range())
+        }
+
         /// Side-effect free view of bucket `i` (0..256).
         #[allow(clippy::type_complexity)]
         pub fn raw_bucket(
